@@ -205,6 +205,16 @@ def slot_strings(k):
             s = ''.join(combo)
             if s == s.strip() and s:
                 out.add(s)
+    # long runs of one marker character next to markup of the same kind (parity of the run decides the escaping), and a long text
+    # with marker pairs at every offset around its middle, followed by real markup of that kind
+    for ch in '*/_}':
+        for m in (64, 65, 67, 128, 129):
+            out.add('Signed: ' + ch * m); out.add(ch * m + ' x')
+    for pair in ('//', '**', '__', '{{'):
+        for total in (1001, 1171, 2049):
+            for k in range(3):
+                pos = total // 2 - 1 + k
+                out.add(('w' * pos + pair + 'v' * total)[:total] + ' end')
     return sorted(out)
 
 def _slot(args):
@@ -328,8 +338,9 @@ def _fn(args):
     return r if r[0] == 'ok' else ('bad', r[1], r[2])
 
 # witnesses of the known findings
-def _deep(_):
-    t = E('akomaNtoso', None, E('act', {'name': 'act'}, E('body', None, E('hcontainer', {'name': 'hcontainer'}, E('content', None, E('p', None, '\\*' * 1500))))))
+def _deep(kind):
+    # kind 0: 1500 escapes; kind 1: a text that starts with 1500 identical characters (the run helpers recurse once per character)
+    t = E('akomaNtoso', None, E('act', {'name': 'act'}, E('body', None, E('hcontainer', {'name': 'hcontainer'}, E('content', None, E('p', None, ('\\*' * 1500) if not kind else 'w' * 1500))))))
     r = roundtrip(t, 'act')
     return r if r[0] == 'ok' else ('bad', r[1], None)
 
@@ -382,6 +393,17 @@ def xsl_cases(ctx, n):
         if "'" in s and '"' in s:
             s = s.replace('"', '')
         out.append((fn, s))
+    # long runs of one marker character at the ends (the run helpers decide by the parity of the run: chunked or recursive, the
+    # count must be exact), and long texts with marker pairs at every offset (a divide-and-conquer replace must not split a pair)
+    for ch in '*/_{}\\':
+        for m in (63, 64, 65, 66, 127, 128, 129, 130, 193, 257):
+            for fn in ('start-end-00', 'start-end-b', 'start-end-i', 'start-end-u', 'start-end-sup', 'escape-inlines'):
+                out.append((fn, 'a ' + ch * m)); out.append((fn, ch * m + ' z'))
+    for pair in ('**', '//', '__', '{{', '}}', '\\'):
+        for total in (999, 1000, 1001, 1002, 1170, 2001, 2048, 4099):
+            for k in range(4):
+                pos = total // 2 - 2 + k
+                out.append(('escape-inlines', ('x' * pos + pair + 'y' * total)[:total] + ' ' + pair))
     return out
 
 def stage_xslstr(ctx, cases):
@@ -509,10 +531,11 @@ def search(ctx, budget):
         ctx.evaluations += 1; ctx.count('witness_' + r[0])
         if r[0] == 'bad':
             ctx.failures.append(({'stage': 'attr', 'position': j[0], 'value': j[1], 'unparsed': r[2], 'witness': True}, r[1]))
-    r = impl.pmap(_deep, [0], chunk=1)[0]
-    ctx.evaluations += 1; ctx.count('witness_deep_' + r[0])
-    if r[0] == 'bad':
-        ctx.failures.append(({'stage': 'deep', 'escapes': 1500}, r[1]))
+    for kind in (0, 1):
+        r = impl.pmap(_deep, [kind], chunk=1)[0]
+        ctx.evaluations += 1; ctx.count('witness_deep_' + r[0])
+        if r[0] == 'bad':
+            ctx.failures.append(({'stage': 'deep', 'escapes': 1500, 'kind': kind}, r[1]))
     ctx.sample({'stream': 'slot', 'position': sj[0][0], 'string': sj[0][1]})
     ctx.sample({'stream': 'poison', 'seed': js[0][0], 'root': js[0][1]})
 
@@ -551,7 +574,7 @@ def replay(obj):
     if st == 'paragraph':
         r = _para((case['uri'], case['prefix'], case['string'])); print(r[:2]); return 1 if r[0] == 'bad' else 0
     if st == 'deep':
-        r = _deep(0); print(r[:2]); return 1 if r[0] == 'bad' else 0
+        r = _deep(case.get('kind', 0)); print(r[:2]); return 1 if r[0] == 'bad' else 0
     return 0 if replay_xslstr(case) else 1
 
 LEVEL_TEXT = ('Partial. Proved on the tables regenerated from akn_text.xsl and akn.peg: the hand-maintained keyword list of escape-prefixes covers every '
